@@ -56,6 +56,10 @@ ITEMS = [
          requires=[('nonempty_offset_in_range', 'self.0.len() > 0 && self.1 < self.0.len() && self.0.len() <= isize::MAX')],
          ensures=[('element_at_offset_plus_index_modulo_len', 'r == Ok::<Obj, NErr>(self.0@[(self.1 as int + i as int) % (self.0.len() as int)])')],
          props=['C11', 'C10']),
+    Item(id='cycle_len', source=S, locator='impl Stream for Cycle / fn len', wrap='impl Cycle',
+         ensures=[('infinite', 'r is None')], props=['C11']),
+    Item(id='cycle_force', source=S, locator='impl Stream for Cycle / fn force', wrap='impl Cycle',
+         ensures=[('cannot_be_forced', 'r is Err && err_class(r->Err_0) == ErrClass::Value')], props=['C11']),
     # repeat(x): the infinite constant stream
     Item(id='Repeat', kind='type', source=S, locator='struct Repeat', subst=[(r'#\[derive\([^)]*\)\]\s*', '#[derive(Clone)]\n', 'derives reduced to Clone')]),
     Item(id='repeat_next', source=S, locator='impl Iterator for Repeat / fn next', wrap='impl Repeat',
